@@ -205,10 +205,118 @@ const (
 type c11Mut struct {
 	dir   string
 	frame int
-	kind  string // flip, truncate, append, claimed-id
+	kind  string // flip, truncate, append, claimed-id, field
 	off   int
 	mask  byte
 	newID string
+	field int    // kind "field": index into the message layout
+	op    string // kind "field": what to do with that field
+}
+
+// AKEP2 message layouts on a plaintext stream (ints are 8 bytes; an id string is
+// an int length + NUL-terminated bytes; raw is an int length + that many bytes).
+var c11Layouts = map[string][]string{
+	"step1": {"int:status", "idstr:client-id", "cstr:token", "raw:RA"},
+	"step2": {"int:status", "idstr:client-id-echo", "idstr:server-id", "raw:RA-echo", "raw:RB", "raw:server-proof"},
+	"step3": {"int:status", "idstr:client-id-echo", "raw:RB-echo", "raw:client-proof"},
+}
+
+type c11Field struct {
+	kind, name string
+	lo, hi     int // whole field incl. its length prefix
+}
+
+func c11Parse(layout []string, p []byte) ([]c11Field, bool) {
+	var out []c11Field
+	off := 0
+	for _, l := range layout {
+		kn := strings.SplitN(l, ":", 2)
+		f := c11Field{kind: kn[0], name: kn[1], lo: off}
+		switch kn[0] {
+		case "int":
+			off += 8
+		case "idstr", "cstr":
+			if kn[0] == "idstr" {
+				off += 8
+			}
+			for off < len(p) && p[off] != 0 {
+				off++
+			}
+			off++
+		case "raw":
+			if off+8 > len(p) {
+				return nil, false
+			}
+			off += 8 + int(binary.BigEndian.Uint64(p[off:]))
+		}
+		if off > len(p) {
+			return nil, false
+		}
+		f.hi = off
+		out = append(out, f)
+	}
+	return out, off == len(p)
+}
+
+func c11Int(v int64) []byte {
+	b := make([]byte, 8)
+	binary.BigEndian.PutUint64(b, uint64(v))
+	return b
+}
+
+// c11FieldOps lists the field-aware alterations for a field kind.
+func c11FieldOps(kind string) []string {
+	switch kind {
+	case "int":
+		return []string{"=1", "=-1", "=2", "=256"}
+	case "raw":
+		return []string{"empty", "first-byte-only", "drop-last", "extra-zero", "all-zero", "len0-bytes-kept", "len-1-bytes-kept"}
+	case "idstr":
+		return []string{"empty", "other", "plus-char"}
+	}
+	return nil
+}
+
+func c11ApplyField(p []byte, f c11Field, op string) []byte {
+	var nf []byte
+	old := p[f.lo:f.hi]
+	switch f.kind {
+	case "int":
+		v := map[string]int64{"=1": 1, "=-1": -1, "=2": 2, "=256": 256}[op]
+		nf = c11Int(v)
+	case "raw":
+		body := old[8:]
+		switch op {
+		case "empty":
+			nf = c11Int(0)
+		case "first-byte-only":
+			nf = append(c11Int(1), body[:min(1, len(body))]...)
+		case "drop-last":
+			nf = append(c11Int(int64(len(body)-1)), body[:len(body)-1]...)
+		case "extra-zero":
+			nf = append(append(c11Int(int64(len(body)+1)), body...), 0)
+		case "all-zero":
+			nf = append(c11Int(int64(len(body))), make([]byte, len(body))...)
+		case "len0-bytes-kept":
+			nf = append(c11Int(0), body...)
+		case "len-1-bytes-kept":
+			nf = append(c11Int(int64(len(body)-1)), body...)
+		}
+	case "idstr":
+		id := string(old[8 : len(old)-1])
+		switch op {
+		case "empty":
+			id = ""
+		case "other":
+			id = "bob@verif.domain"
+		case "plus-char":
+			id += "x"
+		}
+		nf = append(append(c11Int(int64(len(id))), id...), 0)
+	}
+	out := append([]byte(nil), p[:f.lo]...)
+	out = append(out, nf...)
+	return append(out, p[f.hi:]...)
 }
 
 // step1Fields returns the byte range [lo,hi) of the claimed client id inside
@@ -228,6 +336,8 @@ func c11Relay(res *vlib.Result, m c11Mut) {
 	cc, sc := c11Cfgs(tok)
 	applied := false
 	inID := false
+	fieldParseFailed := false
+	fieldName := ""
 	hook := func(dir string) func(int, []byte) [][]byte {
 		return func(i int, fr []byte) [][]byte {
 			if dir != m.dir || i != m.frame {
@@ -254,6 +364,18 @@ func c11Relay(res *vlib.Result, m c11Mut) {
 			case "append":
 				g = append(g, bytes.Repeat([]byte{m.mask}, m.off)...)
 				binary.BigEndian.PutUint32(g[1:5], uint32(len(g)-5))
+			case "field":
+				name := map[string]string{"c2s/2": "step1", "c2s/3": "step3", "s2c/2": "step2"}[fmt.Sprintf("%s/%d", m.dir, m.frame)]
+				fs, ok := c11Parse(c11Layouts[name], fr[5:])
+				if !ok || m.field >= len(fs) {
+					fieldParseFailed = true
+					return [][]byte{fr}
+				}
+				np := c11ApplyField(fr[5:], fs[m.field], m.op)
+				g = append(append([]byte(nil), fr[:5]...), np...)
+				binary.BigEndian.PutUint32(g[1:5], uint32(len(np)))
+				inID = fs[m.field].kind == "idstr"
+				fieldName = fs[m.field].name
 			case "claimed-id":
 				p := fr[5:]
 				lo, hi := step1ID(p)
@@ -275,6 +397,10 @@ func c11Relay(res *vlib.Result, m c11Mut) {
 	if r.S.Neg != nil {
 		security.GetSessionCache().Invalidate(r.S.Neg.SessionId)
 	}
+	if fieldParseFailed {
+		res.Violate("C11/harness-layout", "%s frame %d does not parse under the AKEP2 layout the harness assumes", m.dir, m.frame)
+		return
+	}
 	if !applied {
 		res.Skipped++
 		return
@@ -282,6 +408,9 @@ func c11Relay(res *vlib.Result, m c11Mut) {
 	res.Nontrivial++
 	msg := map[string]string{"c2s/2": "step1", "c2s/3": "step3", "s2c/2": "step2"}[fmt.Sprintf("%s/%d", m.dir, m.frame)]
 	label := fmt.Sprintf("%s %s@%d^%02x id=%q", msg, m.kind, m.off, m.mask, m.newID)
+	if m.kind == "field" {
+		label = fmt.Sprintf("%s field %s %s", msg, fieldName, m.op)
+	}
 	if r.S.Panic != "" || r.C.Panic != "" {
 		res.Violate("C11/panic/relay-"+msg, "%s: %s%s", label, r.S.Panic, r.C.Panic)
 		return
@@ -302,6 +431,19 @@ func c11Relay(res *vlib.Result, m c11Mut) {
 			res.Violate("C11/identity-changed-by-framing", "%s: recorded user %q", label, r.S.Neg.User)
 		}
 		res.Outcome("framing-only-alteration-" + map[bool]string{true: "tolerated", false: "rejected"}[r.S.Err == nil && r.C.Err == nil])
+		return
+	}
+	if m.kind == "field" {
+		// the same verdicts, keyed by field
+		if m.dir == "c2s" && r.S.Err == nil {
+			res.Violate(fmt.Sprintf("C11/server-accepts-altered-proof/%s/%s/%s", msg, fieldName, m.op), "%s: the server still authenticated the client (user %q)", label, r.S.Neg.User)
+			return
+		}
+		if m.dir == "s2c" && r.C.Err == nil {
+			res.Violate(fmt.Sprintf("C11/client-accepts-altered-proof/%s/%s/%s", msg, fieldName, m.op), "%s: the client still accepted the server", label)
+			return
+		}
+		res.Outcome("field-altered-" + msg + "-rejected")
 		return
 	}
 	if m.dir == "c2s" && r.S.Err == nil {
@@ -340,7 +482,7 @@ func c11Verify(res *vlib.Result, label, class, tok string) {
 func C11Plan() *vlib.Plan {
 	p := &vlib.Plan{
 		Property: "C11", Level: "fault_enumeration",
-		Rule:   "E-FAULT: (1) 20 token variants and every single-bit flip of a valid token string, each through a real client/server TOKEN handshake (no cipher, so the AKEP2 result is the result); (2) for each of the three AKEP2 messages: every byte offset (header and payload) x {^01,^80}, truncation at every 8th byte, 1/8 trailing bytes appended, and for step 1 a field-aware substitution of the claimed client identity by {bob, empty, +1 char}; (3) VerifyIDToken on the same variants and bit flips. Oracle: independent HKDF+HMAC verifier with the same time rules (variants sit 120 s away from the limits); server success => token valid and no client message altered outside the claimed-identity field; client success => server message unaltered; recorded user = token subject. Non-trivial = the mutated element reached the receiving side.",
+		Rule:   "E-FAULT: (1) 20 token variants and every single-bit flip of a valid token string, each through a real client/server TOKEN handshake (no cipher, so the AKEP2 result is the result); (2) for each of the three AKEP2 messages: every byte offset (header and payload) x {^01,^80}, truncation at every 8th byte, 1/8 trailing bytes appended, for step 1 a field-aware substitution of the claimed client identity by {bob, empty, +1 char}, and field-aware alterations of every field of every message (status := 1/-1/2/256; each proof, nonce and nonce echo := empty / first byte only / last byte dropped / one zero byte added / all zero / length 0 or length-1 with the bytes kept; each identity echo := empty / bob / +1 char); (3) VerifyIDToken on the same variants and bit flips. Oracle: independent HKDF+HMAC verifier with the same time rules (variants sit 120 s away from the limits); server success => token valid and no client message altered outside the claimed-identity field; client success => server message unaltered; recorded user = token subject. Non-trivial = the mutated element reached the receiving side.",
 		Assume: []string{"base64 decoding is shared with the code (non-canonical trailing bits that decode identically are the same token)", "time-dependent variants are 120 s away from the boundary"},
 	}
 	p.Gen = func(tier string, yield func(vlib.Case)) {
@@ -414,6 +556,22 @@ func C11Plan() *vlib.Plan {
 					c11Relay(res, c11Mut{dir: ps.dir, frame: ps.frame, kind: "flip", off: off, mask: 0x80})
 					return res
 				}})
+			}
+			{
+				name := map[string]string{"c2s/2": "step1", "c2s/3": "step3", "s2c/2": "step2"}[fmt.Sprintf("%s/%d", ps.dir, ps.frame)]
+				for fi, l := range c11Layouts[name] {
+					fi, kind := fi, strings.SplitN(l, ":", 2)[0]
+					if len(c11FieldOps(kind)) == 0 {
+						continue
+					}
+					yield(vlib.Case{ID: fmt.Sprintf("relay/%s/field=%s", name, l), Run: func() *vlib.Result {
+						res := &vlib.Result{}
+						for _, op := range c11FieldOps(kind) {
+							c11Relay(res, c11Mut{dir: ps.dir, frame: ps.frame, kind: "field", field: fi, op: op})
+						}
+						return res
+					}})
+				}
 			}
 			yield(vlib.Case{ID: fmt.Sprintf("relay/%s#%d/truncate+append", ps.dir, ps.frame), Run: func() *vlib.Result {
 				res := &vlib.Result{}
